@@ -40,6 +40,9 @@ func C09(c *core.Ctx) {
 		}
 	}
 	ruleFidelity(c, "default")
+	// defaults belong to the declaration a schema is bound to (A-DEDUP); a default lands in an exported field (A-IDENT)
+	ruleDedup(c)
+	ruleIdent(c)
 	c.Floor("families", c.Counts["members"], 35, "family members")
 	// defaults belong to the declaration: two same-named definitions (in two files of one run) that differ only in a default must each keep their own
 	ruleMulti(c, ruleSet("A-DEF"))
